@@ -232,6 +232,27 @@ def chk_arrays(c, note):
         fresh = np.asarray(getattr(aero, f)(np.array(buf.tolist())), dtype=float)
         if np.shape(got) != np.shape(fresh) or np.any(np.abs(got - fresh) > 1e-12 * np.abs(fresh)):
             return "%s on an array updated in place since the previous call -> %r, on a fresh array with the same contents -> %r" % (f, got.tolist(), fresh.tolist())
+    # a result the caller keeps while making further calls with arrays of the same shape: it must still hold what it was returned with, and the
+    # input arrays must be left as they were
+    other = np.clip(H[::-1] * 0.5 + 3000.0, -500, 20000)
+    for f in ("pressure", "density", "temperature", "vsound", "atmos", "tas2eas", "eas2tas", "tas2cas", "cas2tas", "tas2mach", "mach2tas", "cas2mach", "mach2cas"):
+        fn = getattr(aero, f)
+        one = f in ("pressure", "density", "temperature", "vsound", "atmos")
+        v_in = np.clip(V, 0.05, 0.95) if f.startswith("mach2") else V
+        args1 = (H.copy(),) if one else (v_in.copy(), H.copy())
+        keep_in = [a.copy() for a in args1]
+        r1 = fn(*args1)
+        parts = list(r1) if isinstance(r1, tuple) else [r1]
+        snap = [np.array(x, dtype=float, copy=True) for x in parts]
+        for g in ("atmos", "density", f):
+            gn = getattr(aero, g)
+            gn(other.copy()) if g in ("pressure", "density", "temperature", "vsound", "atmos") else gn(v_in.copy(), other.copy())
+        for x, s0 in zip(parts, snap):
+            if np.shape(x) != np.shape(s0) or not np.array_equal(np.asarray(x, dtype=float), s0, equal_nan=True):
+                return "%s(%s) returned %r; after further calls on other arrays of the same shape the returned object reads %r" % (f, [a.tolist() for a in keep_in], s0.tolist(), np.asarray(x).tolist())
+        for a, k in zip(args1, keep_in):
+            if not np.array_equal(a, k):
+                return "%s changed its input array %r into %r" % (f, k.tolist(), a.tolist())
     note.nt(len(c["h"]) > 1)
     return None
 
